@@ -157,7 +157,23 @@ sim::Json generate(const std::string& tier, uint64_t seed, uint64_t index) {
       sc.ref("signals").push(sig("*", (int)rng.below((uint64_t)c.total), signo));
     }
   }
-  if (rng.chance(0.15)) {
+  if (rng.chance(0.12)) {
+    // a driver that opens its solver session once the options are known and registers that session with the interrupter when
+    // the framework asks it to; half of the time its main() hands the same backend the model a second time
+    sc.set("driver", "direct");
+    sc.set("signals", sim::Json::array());
+    if (rng.chance(0.5)) sc.set("rerun_backend", (long)rng.range(1, 2)); else sc.set("rerun_backend", 0L);
+    {
+      sim::Json& sp = sc.ref("script");          // (no insertion into sc while this reference is in use)
+      sp.erase("registrations");
+      sp.set("session_pattern", true);
+      sp.set("session_reopen", rng.chance(0.8));
+    }
+    long span = sc["script"]["solve_iters"].as_int(1) * (1 + sc["rerun_backend"].as_int(0));
+    int ns = 1 + (int)rng.below(2);
+    for (int q = 0; q < ns; ++q) sc.ref("signals").push(sig("stub.solve.iter", (int)rng.below((uint64_t)span), rng.chance(0.5) ? 2 : 15));
+  }
+  else if (rng.chance(0.15)) {
     // a second driver party with a history: the minimal BasicBackend driver, its application object run 1..3 times;
     // signals at its own points (occurrence counts are not known in advance: a signal whose point never comes simply stays pending)
     sc.set("driver", "mini"); sc.set("mini_runs", (long)rng.range(1, 3));
@@ -203,6 +219,7 @@ void judge(const sim::Json& sc, const RunRecord& rec, sim::RunResult& r) {
   int pending_signo = 0; std::string pending_at;
   int counted = 0;
   int live = 0;                // handler objects in existence
+  std::string solving_session; // "session" registration pattern: the session the solver is solving with right now
   bool exited = false;
   std::string viol, key, detail;
   auto flag = [&](const std::string& v, const std::string& k, const std::string& d) {
@@ -278,9 +295,14 @@ void judge(const sim::Json& sc, const RunRecord& rec, sim::RunResult& r) {
       for (int di : stack) dels[di].any_inprogress_during = true;
     }
     else if (starts(e, "SETHANDLER_END ")) { current = atoi(e.c_str() + 15); in_progress = -1; }
+    else if (starts(e, "SOLVE_SESSION ")) solving_session = e.substr(14);
+    else if (starts(e, "SOLVE_END")) solving_session.clear();
     else if (starts(e, "CALLBACK ")) {
       std::string fn = e.substr(9, 1);
       std::string data = e.size() > 11 ? e.substr(11) : "";
+      // a driver that registers the session it solves with: an interrupt during the solve must reach that session
+      if (!solving_session.empty() && data != solving_session)
+        flag("STALE_SESSION", stack.empty() ? "?" : dels[stack.back()].at, "the solver is solving with session " + solving_session + ", the interrupt callback was invoked with " + data + " (a session that was closed when the options were parsed / by an earlier run)");
       if (!stack.empty()) dels[stack.back()].callbacks++;
       std::string at = stack.empty() ? "?" : dels[stack.back()].at;
       if (dtor_done) flag("CALLBACK_AFTER_DESTROY", at, "callback " + fn + "(" + data + ") invoked after the handler object was destroyed");
